@@ -161,19 +161,56 @@ Theorem C13_decryptor_ignores_empty_pdu :
     attempt E ds (h :: 0%N :: rest) = (ds, Ok None).
 Proof. exact attempt_empty_pdu. Qed.
 
-(** The stack (LinkLayer of whad/ble/stack/llm): for ALL sequences of encryption start
-    procedures run one after the other — any number, same or different connection handles,
-    central (start_encryption, LL_ENC_RSP, LL_START_ENC_REQ) or peripheral (LL_ENC_REQ) side,
-    any LTK/SKD/IV/rand/ediv, from ANY link-layer state in which the handles are registered —
-    the k-th [set_encryption] handed to the PHY carries exactly e(LTK, SKDs || SKDm),
-    IVm || IVs, LTK, rand, ediv of the k-th procedure: each procedure's session material
-    depends only on its own inputs (no state of an earlier procedure survives into it).
-    [_partial]: procedures whose PDUs interleave across handles are excluded, see below. *)
-Theorem C13_stack_procedures_partial :
+(** The stack (LinkLayer of whad/ble/stack/llm, crypto manager kept per connection handle).
+    For ALL sequences of encryption start procedures run one after the other — any number,
+    same or different connection handles, central (start_encryption, LL_ENC_RSP,
+    LL_START_ENC_REQ) or peripheral (LL_ENC_REQ) side, any LTK/SKD/IV/rand/ediv, from ANY
+    link-layer state in which the handles are registered — the k-th [set_encryption] handed to
+    the PHY carries exactly e(LTK, SKDs || SKDm), IVm || IVs, LTK, rand, ediv of the k-th
+    procedure: nothing of an earlier procedure survives into a later one. *)
+Theorem C13_stack_procedures :
   forall E (procs : list proc) (st : lls),
     Forall (fun p => proc_wfb p = true /\ registered (p_h p) st = true) procs ->
-    set_enc_only (snd (ll_run E st (concat (map proc_events procs)))) = map (proc_expected E) procs.
+    set_enc_only (snd (ll_run E false st (concat (map proc_events procs)))) = map (proc_expected E) procs.
 Proof. exact stack_procedures. Qed.
+
+(** What happens on a handle depends only on the events of that handle: the outputs of the
+    events of [h] during a run of an ARBITRARY event sequence are the outputs of running the
+    events of [h] alone (from any state agreeing with the start state on [h]). *)
+Theorem C13_stack_handle_independence :
+  forall E (h : N) (evs : list levent) (st : lls),
+    outs_of E false h st evs = snd (ll_run E false st (on_handle h evs)).
+Proof. exact handle_independence_same. Qed.
+
+(** Arbitrary interleavings: whatever events of other handles (procedures, registrations,
+    disconnections, stray PDUs) are interleaved, in whatever order, with the procedures [procs]
+    run on handle [h], the PHY is given for [h] exactly the material of each of them. *)
+Theorem C13_stack_interleavings :
+  forall E (h : N) (procs : list proc) (evs : list levent) (st : lls),
+    registered h st = true ->
+    Forall (fun p => proc_wfb p = true /\ p_h p = h) procs ->
+    on_handle h evs = concat (map proc_events procs) ->
+    set_enc_only (outs_of E false h st evs) = map (proc_expected E) procs.
+Proof. exact stack_interleavings. Qed.
+
+(** The statement that used to be refuted (two central procedures on different handles, PDUs
+    interleaved) now holds ... *)
+Definition C13_stack_interleaved_statement : Prop := stack_interleaved_statement_for false.
+
+Theorem C13_stack_interleaved : C13_stack_interleaved_statement.
+Proof. exact stack_interleaved_statement_holds. Qed.
+
+(** ... and is still false for the behaviour before the repair (one manager attribute shared by
+    all handles): regression anchor for seeded/C13/revert-llcm-per-handle. *)
+Theorem C13_stack_shared_manager_refuted : ~ stack_interleaved_statement_for true.
+Proof. exact stack_shared_manager_refuted. Qed.
+
+(** A disconnection drops the manager of the handle: a new connection reusing the handle is
+    never given the previous connection's material. *)
+Theorem C13_stack_no_manager_after_disconnect :
+  forall E (h : N) (st : lls),
+    snd (ll_run E false st [EDisc h; EConn h; EStartEncReq h]) = [LNone; LNone; LRaise AttributeError].
+Proof. exact no_manager_after_disconnect. Qed.
 
 (** Central and peripheral side of one procedure hand the same session key and IV to their PHY. *)
 Theorem C13_stack_both_roles_same_key :
@@ -182,16 +219,8 @@ Theorem C13_stack_both_roles_same_key :
     p_central p = true -> p_central q = false ->
     p_h q = p_h p -> p_key q = p_key p -> p_rand q = p_rand p -> p_ediv q = p_ediv p ->
     p_skdm q = p_skdm p -> p_ivm q = p_ivm p -> p_skds q = p_skds p -> p_ivs q = p_ivs p ->
-    set_enc_only (snd (ll_run E st (proc_events p))) = set_enc_only (snd (ll_run E st' (proc_events q))).
+    set_enc_only (snd (ll_run E false st (proc_events p))) = set_enc_only (snd (ll_run E false st' (proc_events q))).
 Proof. exact stack_both_roles. Qed.
-
-(** Full statement incl. interleaving of two connections' procedures: REFUTED by the faithful
-    model — the stack keeps one crypto manager for all handles (known finding
-    llcm-shared-across-connection-handles, witness replayed on the implementation each run). *)
-Definition C13_stack_interleaved_statement : Prop := stack_interleaved_statement.
-
-Theorem C13_stack_interleaved_refuted : ~ C13_stack_interleaved_statement.
-Proof. exact stack_interleaved_refuted. Qed.
 
 (** "Changing ANY protected bit makes decryption fail", for every block function: not a
     theorem. It is false for some [E] (below: the constant function, for which every MIC is
